@@ -35,7 +35,10 @@ type c1Gen struct {
 }
 
 type c1Case struct {
-	Mod      modspec.Mod `json:"mod"`
+	Mod modspec.Mod `json:"mod"`
+	// Sib: a second module (required through a replace directive) whose package is generated in the same run; it has its own go
+	// directive and module path
+	Sib *modspec.Mod `json:"sib,omitempty"`
 	Gens     []c1Gen     `json:"gens"`
 	Features []string    `json:"features"`
 }
@@ -71,7 +74,39 @@ func genC01(t *rapid.T) c1Case {
 		p.Files = append(p.Files, f)
 		c.Mod.Pkgs = append(c.Mod.Pkgs, p)
 	}
+	if rapid.IntRange(0, 3).Draw(t, "sibling") == 0 {
+		// the main module must not declare an older go version than the module it requires (the go command would want to edit go.mod)
+		c.Mod.Go = rapid.SampledFrom([]string{"1.21", "1.22", "1.24", "1.24.2"}).Draw(t, "maingo")
+		sib := modspec.Mod{Path: rapid.SampledFrom([]string{"corp/two", "acme.dev/one", "sib", "example.org/x/sib"}).Draw(t, "sibpath"),
+			Go: rapid.SampledFrom([]string{"1.12", "1.16", "1.21"}).Draw(t, "sibgo")}
+		p := modspec.Pkg{Dir: "pkg", Name: "sibpkg"}
+		f := modspec.GoFile{Name: "types.go"}
+		for j := 0; j < rapid.IntRange(1, 2).Draw(t, "nsibtypes"); j++ {
+			n := fmt.Sprintf("S%d", j)
+			f.Decls = append(f.Decls, modspec.Decl{Kind: "struct", Name: n, Fields: []modspec.Field{{Names: []string{"A"}, Type: "int"}}})
+			types = append(types, tkey{sib.Path + "/pkg", n})
+		}
+		p.Files = append(p.Files, f)
+		sib.Pkgs = append(sib.Pkgs, p)
+		c.Sib = &sib
+		feats["second-module-in-the-same-run"] = true
+	}
 	names := rapid.SampledFrom([][]string{{"g"}, {"deep", "deepcopy"}, {"gen", "g"}, {"a", "ab", "x1"}, {"doc"}}).Draw(t, "gennames")
+	// previous outputs of the same generators, much longer than anything rendered now (the new file must replace them entirely)
+	for pi := range c.Mod.Pkgs {
+		for _, n := range names {
+			if rapid.IntRange(0, 3).Draw(t, "staleout") == 0 {
+				var sb strings.Builder
+				fmt.Fprintf(&sb, "package %s\n\n", c.Mod.Pkgs[pi].Name)
+				for l := 0; l < 400; l++ {
+					fmt.Fprintf(&sb, "// line %d of a previous, much longer output\n", l)
+				}
+				fmt.Fprintf(&sb, "var _previous_%s = 0\n", n)
+				c.Mod.Pkgs[pi].Other = append(c.Mod.Pkgs[pi].Other, modspec.File{Name: "zz_generated." + n + ".go", Data: sb.String()})
+				feats["previous-longer-output"] = true
+			}
+		}
+	}
 	for gi, n := range names {
 		g := c1Gen{Name: n, Mode: rapid.SampledFrom([]string{"fixed", "new"}).Draw(t, "mode"), Pieces: map[string][]script.Piece{}}
 		for ti, tk := range types {
@@ -212,16 +247,64 @@ func bodyOffset(src []byte) (int, string, []string, error) {
 	return fset.Position(end).Offset, f.Name.Name, imports, nil
 }
 
+type c1Loc struct {
+	pkg     *modspec.Pkg
+	path    string // import path
+	dir     string // directory on disk
+	goVer   string
+	modPath string
+}
+
 func oracleC01(c c1Case) error {
-	dir := tempModule(&c.Mod)
-	defer os.RemoveAll(dir)
+	var dir string
+	var locs []c1Loc
+	var entries []string
+	if c.Sib == nil {
+		dir = tempModule(&c.Mod)
+		defer os.RemoveAll(dir)
+	} else {
+		root, err := os.MkdirTemp("", "vtmods")
+		if err != nil {
+			panic("harness: " + err.Error())
+		}
+		if real, err := filepath.EvalSymlinks(root); err == nil {
+			root = real
+		}
+		defer os.RemoveAll(root)
+		dir = filepath.Join(root, "main")
+		sibDir := filepath.Join(root, "sib")
+		main := c.Mod
+		gomod := "module " + main.Path + "\n"
+		if main.Go != "" {
+			gomod += "\ngo " + main.Go + "\n"
+		}
+		gomod += "\nrequire " + c.Sib.Path + " v0.0.0\n\nreplace " + c.Sib.Path + " => ../sib\n"
+		main.Extra = append(append([]modspec.File{}, main.Extra...), modspec.File{Name: "go.mod", Data: gomod})
+		for _, d := range []string{dir, sibDir} {
+			if err := os.MkdirAll(d, 0o755); err != nil {
+				panic("harness: " + err.Error())
+			}
+		}
+		if err := main.Write(dir); err != nil {
+			panic("harness: " + err.Error())
+		}
+		if err := c.Sib.Write(sibDir); err != nil {
+			panic("harness: " + err.Error())
+		}
+		for i := range c.Sib.Pkgs {
+			p := &c.Sib.Pkgs[i]
+			locs = append(locs, c1Loc{p, c.Sib.PkgPath(p), filepath.Join(sibDir, filepath.FromSlash(p.Dir)), c.Sib.Go, c.Sib.Path})
+			entries = append(entries, c.Sib.PkgPath(p))
+		}
+	}
 	globals := map[string][]string{}
 	for _, g := range c.Gens {
 		globals["gengo:"+g.Name] = []string{""}
 	}
-	var entries []string
-	for _, p := range c.Mod.Pkgs {
+	for i := range c.Mod.Pkgs {
+		p := &c.Mod.Pkgs[i]
 		entries = append(entries, entry(p.Dir))
+		locs = append(locs, c1Loc{p, c.Mod.PkgPath(p), filepath.Join(dir, filepath.FromSlash(p.Dir)), c.Mod.Go, c.Mod.Path})
 	}
 	res := script.Run(script.RunSpec{Dir: dir, Entrypoints: entries, Globals: globals, Base: "zz_generated", Scripts: c.scripts()})
 	if res.LoadErr != "" {
@@ -250,11 +333,11 @@ func oracleC01(c c1Case) error {
 		// the statement only covers runs that return nil; a failure on parseable rendering is reported, it is not what C01 states
 		return fmt.Errorf("Execute failed although every generator rendered parseable declarations: %s", res.Err)
 	}
-	for _, p := range c.Mod.Pkgs {
-		pp := c.Mod.PkgPath(&p)
+	for _, loc := range locs {
+		p, pp := loc.pkg, loc.path
 		for _, g := range c.Gens {
 			text := rendered[[2]string{g.Name, pp}]
-			fn := filepath.Join(dir, filepath.FromSlash(p.Dir), "zz_generated."+g.Name+".go")
+			fn := filepath.Join(loc.dir, "zz_generated."+g.Name+".go")
 			src, err := os.ReadFile(fn)
 			if text == "" {
 				if err == nil {
@@ -265,7 +348,7 @@ func oracleC01(c c1Case) error {
 			if err != nil {
 				return fmt.Errorf("generator %s rendered %d bytes for %s but its file is missing: %v", g.Name, len(text), pp, err)
 			}
-			if err := checkCanonical(src, g.Name, p.Name, text, c.Mod.Go, c.Mod.Path); err != nil {
+			if err := checkCanonical(src, g.Name, p.Name, text, loc.goVer, loc.modPath); err != nil {
 				return fmt.Errorf("%s/zz_generated.%s.go: %w\n--- file ---\n%s", p.Dir, g.Name, err, clip(string(src), 2500))
 			}
 		}
